@@ -10,7 +10,8 @@ sys.path.insert(0, '/verif/props/C03')          # toycurves.py (frozen helper of
 import toycurves as tc
 
 OPS = {'params': 1, 'msm': 2, 'msm_unchecked': 3, 'msm_bigint': 4, 'msm_signed': 5, 'msm_plain': 6,
-       'msm_chunks': 7, 'make_digits': 8, 'chunked': 9, 'hashmap': 10}
+       'msm_chunks': 7, 'make_digits': 8, 'chunked': 9, 'hashmap': 10,
+       'msm_chunks_long': 11}
 
 M64 = (1 << 64) - 1
 
@@ -348,6 +349,24 @@ def gen(rng, tier):
                     distinct = len(set(bs))
                     yield case(g, 'hashmap', [size], ks, bs) + ('%s/hashmap/n%d/keys%s/%s' % (
                         'toy' if g.toy else g.name, n, sizeclass(distinct, size), cl),)
+    yield from gen_long(rng, cfgs, pts_sub, thorough)
+
+
+def gen_long(rng, cfgs, pts_sub, thorough):
+    """msm_chunks on a stream LONGER than the hard-coded chunk size 2^20 (the chunk loop runs twice; the second chunk
+    must pair ITS bases with ITS scalars): the stream is given intensionally (see Run.v op 11); non-zero scalars sit at
+    the chunk border (2^20 - 1, 2^20, 2^20 + 1), at the very end and at a few random places, everything else is 0."""
+    STEP = 1 << 20
+    gs = [g for g in cfgs if g.toy] [:1] + ([g for g in cfgs if not g.toy][:1] if thorough else [])
+    for g in gs:
+        sub = [P for P in pts_sub[g.cid]][:5] or pts_sub[g.cid]
+        for extra in ([9] if not thorough else [1, 9, 4097]):
+            n = STEP + extra
+            idxs = sorted({0, 1, STEP - 1, STEP, n - 1, rng.randrange(2, STEP - 1)} | ({STEP + 1} if extra > 2 else set()))
+            ks = []
+            for i in idxs:
+                ks += [i, rng.choice([1, 2, g.r - 1, rng.randrange(1, g.r)])]
+            yield case(g, 'msm_chunks_long', [n], ks, sub) + ('%s/msm_chunks_long/n=2^20+%d' % ('toy' if g.toy else g.name, extra),)
 
 
 def sizeclass(n, size):
@@ -373,6 +392,8 @@ def xcheck_ok(case):
     a = case['args']
     if case['op'] == 'make_digits':
         return True
+    if case['op'] == 'msm_chunks_long':
+        return False
     return a[0][0] < 10 and len(a[6]) <= 12 and len(a[7]) <= 36
 
 
